@@ -18,7 +18,9 @@ RULE = (
     "expected notations. Oracle built WITHOUT permutations: per component all proper colourings that satisfy the "
     "greedy-stability (Grundy) condition, cartesian product over components; compared as sets of per-stem level "
     "vectors read from the strings; plus: no repetition in the list, contains dot_bracket and fcfs, singleton "
-    "round-bracket string for knot-free structures; Mapping-independent (BpSeq only). Non-trivial: >=2 components "
+    "round-bracket string for knot-free structures. (c) the 3D entry point: Mapping2D3D.all_dot_brackets for Hypothesis "
+    "pair lists over corpus structures (also relabelled: chains cut into pieces, a chain id coming back after another "
+    "chain, gap detection on/off) must list, strand by strand, exactly the greedy-stable assignments of its own BPSEQ. Non-trivial: >=2 components "
     "or a component that is not a clique; distinct = distinct (sequence, pair set)."
 )
 ASSUMPTIONS = [
@@ -86,6 +88,92 @@ def oracle(case) -> list:
     return out
 
 
+def oracle_mapped(case) -> list:
+    """the 3D entry point: Mapping2D3D.all_dot_brackets (what `annotator -a` / `adapter -a` print) for a drawn pair
+    list over a (relabelled) corpus structure must list, strand by strand, exactly the greedy-stable assignments of
+    the mapping's own BPSEQ"""
+    from rnapolis.tertiary import Mapping2D3D
+    from rnaverif.props import c06
+
+    info = case.setdefault("_info", {})
+    s3, pairs2d = c06.pairs_for_case(case, info)
+    if s3 is None:
+        info["skipped"] = True
+        return []
+    m = Mapping2D3D(s3, pairs2d, [], case["find_gaps"])
+    btext = str(m.bpseq)
+    seq, pairs = "", []
+    for ln in btext.strip().split("\n"):
+        i, c, j = ln.split()
+        seq += c
+        if int(j) > int(i):
+            pairs.append((int(i), int(j)))
+    st, g, comps = ssref.describe(seq, pairs)
+    info["comps"] = [len(c) for c in comps]
+    if any(len(c) > 7 for c in comps) or expected_size_bound(comps) > 20000:
+        info["skipped"] = True
+        return []
+    out = []
+    alls = m.all_dot_brackets
+    strands = []
+    prev = None
+    for r in [r for r in s3.residues if r.is_nucleotide]:
+        if r.chain != prev:
+            strands.append(r.chain)
+            prev = r.chain
+    info["strands"] = len(strands)
+    info["repeated_chain"] = len(set(strands)) < len(strands)
+    got, strs = set(), []
+    for t in alls:
+        lines = t.split("\n")
+        if len(lines) != 3 * len(strands) or [l for l in lines[0::3]] != [f">strand_{c}" for c in strands]:
+            out.append(D("C16:mapped:strand-layout", f"{len(lines)} lines / headers {lines[0::3][:4]} for strands {strands[:4]}"))
+            return out
+        if "".join(lines[1::3]) != seq or any(len(a) != len(b) for a, b in zip(lines[1::3], lines[2::3])):
+            out.append(D("C16:mapped:sequence", f"strand sequences {lines[1::3][:3]} do not concatenate to the BPSEQ sequence / structure lengths differ"))
+            return out
+        sx = "".join(lines[2::3])
+        strs.append(sx)
+        lv = ssref.stem_levels_from_structure(sx, st)
+        paired = {p for ij in pairs for p in ij}
+        if lv is None or any((ch != ".") != ((k + 1) in paired) for k, ch in enumerate(sx)):
+            out.append(D("C16:mapped:member-not-the-structure", f"member {sx[:60]!r} is not a notation of the mapping's BPSEQ"))
+            return out
+        got.add(tuple(lv))
+    if len(set(strs)) != len(strs):
+        out.append(D("C16:mapped:repetition", f"{len(strs) - len(set(strs))} repeated notations"))
+    per_comp = [ssref.grundy_colourings(c, g) for c in comps]
+    want = set()
+    for combo in itertools.product(*per_comp):
+        lv = [0] * len(st)
+        for comp, cols in zip(comps, combo):
+            for v, c in zip(comp, cols):
+                lv[v] = c
+        want.add(tuple(lv))
+    if want - got:
+        out.append(D("C16:mapped:missing-assignment", f"{len(want - got)} greedy-stable assignment(s) absent, e.g. {sorted(want - got)[0]} for stems {st}"))
+    if got - want:
+        out.append(D("C16:mapped:extra-assignment", f"{len(got - want)} listed assignment(s) are not greedy-stable, e.g. {sorted(got - want)[0]}"))
+    if m.dot_bracket not in alls:
+        out.append(D("C16:mapped:optimal-absent", "the mapping's dot_bracket text is not a member of its all_dot_brackets"))
+    return out
+
+
+def classify_mapped(case):
+    info = case.get("_info", {})
+    labs = ["mapped-3d"]
+    if info.get("skipped"):
+        return False, labs + ["skipped"]
+    if info.get("strands", 1) >= 2:
+        labs.append("strands>=2")
+    if info.get("repeated_chain"):
+        labs.append("chain-id-in-two-runs")
+    comps = info.get("comps", [])
+    if comps:
+        labs.append(f"maxcomp={max(comps)}")
+    return bool(comps) and info.get("strands", 1) >= 2, labs
+
+
 def classify(case):
     st, g, comps = ssref.describe(case[0], case[1])
     labs = []
@@ -116,6 +204,8 @@ def plan(tier, seed):
     for idx, (n, m) in enumerate(hyp):
         specs.append({"kind": "blowup", "examples": n, "max_abstract": m, "maxcomp": maxcomp, "seed": seed * 1000 + idx})
     specs.append({"kind": "shaped", "examples": shaped_n, "maxcomp": maxcomp, "seed": seed * 1000 + 99})
+    for k in range(4 if tier == "quick" else 16):
+        specs.append({"kind": "mapped", "examples": 60 if tier == "quick" else 500, "seed": seed * 1000 + 300 + k})
     return specs
 
 
@@ -160,6 +250,14 @@ def run_shard(spec) -> ShardResult:
         run_hypothesis(PROP_ID, strat, oracle, seed=spec["seed"], max_examples=spec["examples"], result=res,
                        to_json=tj, classify=classify)
         res.exhaustive = False
+    elif kind == "mapped":
+        from rnaverif import corpus
+        from rnaverif.props import c06
+
+        files = [f for f in c06.QUICK_FILES if f in corpus.all_files()]
+        run_hypothesis(PROP_ID, c06.st_cases(files), oracle_mapped, seed=spec["seed"], max_examples=spec["examples"], result=res,
+                       to_json=c06.to_json, classify=classify_mapped, sample_cap=1)
+        res.exhaustive = False
     elif kind == "shaped":
         from hypothesis import strategies as st
 
@@ -175,4 +273,6 @@ def run_shard(spec) -> ShardResult:
 
 
 def replay(case):
+    if isinstance(case, dict):
+        return oracle_mapped(dict(case))
     return oracle(case)
